@@ -235,7 +235,7 @@ PROPS = {
     },
     "C19": {
         "modules": ["SxVerif.Props.C19"],
-        "components": ["live", "pipeline", "gen"],
+        "components": ["live", "pipeline", "gen", "e2elive"],
         "trusted_base": [
             "modelled, not verified: Go channel/select/timer semantics as the small-step process of Model/Live.lean (a goroutine parked in a select is woken by the first case that fires; both-ready selects choose arbitrarily; receive on a nil channel blocks; time.After(0) is ready at once); arming the rescan timer and polling the select is one atomic step",
             "the delegate as `passes : Nat -> Option (List Request)` plus `drop` events after a cancel (its own ctx-guarded sends); the consumer of `out` as the scheduler (a slow consumer = the goroutine is not scheduled)",
@@ -263,7 +263,7 @@ PROPS = {
     },
     "C01": {
         "modules": ["SxVerif.Props.C01"],
-        "components": ["gen", "iter", "e2e", "e2ebig", "live"],
+        "components": ["gen", "iter", "e2e", "e2ebig", "live", "e2elive"],
         "search": search_c01,
         "trusted_base": [
             "modelled, not verified: generators as the list they send before closing (channel plumbing is M-conc, C07/C08); cidranger as list membership; net.ParseIP / easyjson / bufio as a line classifier; os.Stdin through the buffering opener as a constant file",
@@ -478,7 +478,7 @@ _LATER = {
     "C16": " Also: appdelay (stdout = /dev/full, text mode: the run still lasts its exit delay), e2eapp.",
     "C17": " Also: e2efill on the tun device (udp/icmp/tcp framing follows the interface), e2elivesrc (--srcip / --srcmac hold in every pass of a live scan), --srcip values that are addresses of other local interfaces.",
     "C18": " Also: e2e with the port list split between -p and --ports-file incl. nested ranges; files of several read buffers.",
-    "C19": " Also: pipeline (a write failure of any errno does not end the sender) and gen crowd cases + race pass (each pass probes every address once with all packet workers running).",
+    "C19": " Also: e2elive (the real `sx arp --live` over 4-6 passes, all CPUs / one CPU, --exclude, --rate, answering hosts: every pass a permutation of the addresses, gaps >= the rescan time, passes until SIGINT); pipeline (a write failure of any errno does not end the sender) and gen crowd cases + race pass (each pass probes every address once with all packet workers running).",
 }
 for _pid, _txt in _LATER.items():
     PROPS[_pid]["level_text"] += _txt
